@@ -1209,6 +1209,9 @@ class RouteBuilderValidator(Validator[list[Any]]):
         # Parse prefix if present (for INET-family routes)
         if self.schema.prefix_parser:
             ipmask = self.schema.prefix_parser(tokeniser)
+            if self.afi is not None and ipmask.afi != self.afi:
+                # `announce ipv4 unicast 2001:db8::/32 ...` names a family and a prefix of the other one
+                raise ValueError(f'{ipmask} is not an {self.afi} prefix')
             settings.cidr = CIDR.create_cidr(ipmask.pack_ip(), ipmask.mask)
             settings.afi = self.afi
             settings.safi = self.safi
